@@ -1,4 +1,4 @@
-import IcyVerif.Model.TermAnsi
+import IcyVerif.Model.TermWrap
 import IcyVerif.Drv.Util
 namespace IcyVerif.Drv.Term
 open IcyVerif.Term IcyVerif.Drv
@@ -41,7 +41,45 @@ def runItems (cfg : Cfg) (items : List String) (acc : Acc) : Acc :=
       | _, _ => { acc with panic := some "bad-item" }
     | _ => { acc with panic := some "bad-item" }) acc
 
+structure WAcc where
+  w : WSt
+  h : UInt64 := 14695981039346656037
+  n : Nat := 0
+  checkpoints : List UInt64 := []
+  panic : Option String := none
+
+def runWItems (e : Emu) (items : List String) (acc : WAcc) : WAcc :=
+  items.foldl (fun acc it =>
+    if acc.panic.isSome then acc else
+    match it.splitOn ":" with
+    | [cp, ll, ext] =>
+      match cp.toNat?, ll.toInt? with
+      | some cp, some ll =>
+        let o : Orc := { lineLen := ll, extOk := ext == "1" }
+        match wstep e (fun _ => o) acc.w (Char.ofNat cp) with
+        | .ok (w', out) =>
+          let h := fnvStep acc.h (digestHash w'.inner (outStr out)).toNat
+          let n := acc.n + 1
+          { acc with w := w', h := h, n := n, checkpoints := if n % 32 == 0 then h :: acc.checkpoints else acc.checkpoints }
+        | .error e => { acc with panic := some (reprStr e) }
+      | _, _ => { acc with panic := some "bad-item" }
+    | _ => { acc with panic := some "bad-item" }) acc
+
+def emuOf : String → Option Emu
+  | "avatar" => some .avatar | "pcboard" => some .pcboard | "ctrla" => some .ctrla | "renegade" => some .renegade
+  | _ => none
+
 def handle : List String → String
+  | ["runw", emu, w, h, items] =>
+    match emuOf emu, w.toInt?, h.toInt? with
+    | some e, some w, some h =>
+      let acc := runWItems e (if items == "-" then [] else items.splitOn ",") { w := initW w h }
+      match acc.panic with
+      | some p => s!"panic after {acc.n}: {p}"
+      | none =>
+        let base := s!"{acc.n} {acc.h} [{intsToString (digest acc.w.inner)}]"
+        if acc.checkpoints.isEmpty then base else base ++ " " ++ " ".intercalate (acc.checkpoints.reverse.map toString)
+    | _, _, _ => "bad-op"
   | ["run", music, bs, w, h, items] =>
     match music.toNat?, w.toInt?, h.toInt? with
     | some m, some w, some h =>
